@@ -35,13 +35,14 @@ EXPLANATION = (
     "(pairwise distinct formulas and SMILES, recorded composition = world composition with explicit Q), with "
     "solver-chosen operation arguments and symbolic hydrogen count / charge per SMILES token; post: invariant, "
     "rejected adds leave the database unchanged and are reported, remove deletes only the named record. "
-    "Because the pre-state is arbitrary, one step covers histories of any length. Base case: the shipped files "
+    "Because the pre-state is arbitrary, one step covers histories of any length as long as the database list is the whole state of the manager; a 3-operation history kernel on one instance guards that assumption (state kept elsewhere on the object). Base case: the shipped files "
     "checked concretely against the invariant with real RDKit."
 )
 BOUNDS = [
     "pre-state: every database of <= 2 records (quick) / <= 3 (thorough) satisfying the invariant, up to renaming of formulas/tokens, every record order (enumerated as partitions); operation arguments range over formulas {F0..F3} x SMILES tokens {S0,S1,S2 valid, BAD invalid} as small symbolic indices",
     "per-token hydrogen count (>= 1) and charge: unbounded symbolic integers",
     "add_entries: lists of <= 2 entries",
+    "history kernel: 3 operations on one manager instance from the empty database: add_entry(F0, S0|S2), then two solver-chosen add_entry/remove_entry calls over formulas {F0,F1} x tokens {S0,S2,invalid}, symbolic hydrogen counts and charges",
 ]
 STUBS = [
     "Chem.MolFromSmiles in rule_data_manager -> None exactly for the invalid token",
@@ -181,6 +182,58 @@ def h_step(
         return mgr.database == exp_db and _inv(mgr.database)
 
 
+HIST_TOKENS = [0, 2, 3]  # S0, S2, BAD
+
+
+def h_hist(
+    a0: int, k1: int, f1: int, s1: int, k2: int, f2: int, s2: int,
+    h0: int, h1: int, h2: int, q0: int, q1: int, q2: int,
+) -> bool:
+    """
+    pre: 0 <= a0 < 2 and 0 <= k1 < 2 and 0 <= f1 < 2 and 0 <= s1 < 3 and 0 <= k2 < 2 and 0 <= f2 < 2 and 0 <= s2 < 3
+    pre: 1 <= h0 and 1 <= h1 and 1 <= h2
+    pre: PART.get("k1") is None or k1 == PART["k1"]
+    pre: PART.get("k2") is None or k2 == PART["k2"]
+    post: _
+    """
+    # Three operations on ONE manager instance, starting from the empty database: add_entry(F0, S0|S2), then two
+    # solver-chosen add_entry / remove_entry calls.  The inductive step (h_step) is sound only while the manager's
+    # state is its `database`; this kernel follows the same object through a history, so anything an operation
+    # remembers elsewhere on the instance is exercised by the next one.
+    _install(h0, h1, h2, q0, q1, q2)
+    mgr = RuleImputeManager([])
+    exp = []
+    ops = [(0, 0, 0 if a0 == 0 else 1), (k1, f1, s1), (k2, f2, s2)]
+    tw = PART.get("twin")
+    nrej = 0
+    sink = io.StringIO()
+    with contextlib.redirect_stdout(sink):
+        for kind, fi, si in ops:
+            F, S = FORMULAS[fi], TOKENS[HIST_TOKENS[si]]
+            if kind == 0:
+                reject = any(r["formula"] == F for r in exp) or any(r["smiles"] == S for r in exp) or S == "BAD"
+                raised = False
+                try:
+                    mgr.add_entry(F, S)
+                except ValueError:
+                    raised = True
+                if raised != reject:
+                    return False
+                if reject:
+                    nrej += 1
+                else:
+                    exp = exp + [{"formula": F, "smiles": S, "Composition": _true_comp(S)}]
+            else:
+                mgr.remove_entry(F)
+                exp = [r for r in exp if r["formula"] != F]
+            if mgr.database != exp or not _inv(mgr.database):
+                return False
+    if tw == "readd":
+        # reachability: a formula is removed and added again with another SMILES
+        return not (ops[1][0] == 1 and ops[1][1] == 0 and ops[2][0] == 0 and ops[2][1] == 0 and ops[2][2] != ops[0][2] and nrej == 0)
+    return True
+
+
 def _prestates(nmax):
     """All pre-state shapes up to renaming of formulas and of valid tokens (both are
     interchangeable: the per-token composition is symbolic) -- plus, on purpose, every
@@ -205,6 +258,10 @@ def plan(tier):
         P.append(Part(H + "h_step", {"op": 1, "pre": pre, "nb": 1}, "step[add_entries/1,pre=%s]" % ps, group="step", timeout=900))
         for af in range(4):
             P.append(Part(H + "h_step", {"op": 1, "pre": pre, "nb": 2, "af": af}, "step[add_entries/2,first=F%d,pre=%s]" % (af, ps), group="step", timeout=900))
+    for k1 in (0, 1):
+        for k2 in (0, 1):
+            P.append(Part(H + "h_hist", {"k1": k1, "k2": k2}, "history[add,%s,%s on one instance]" % (("add", "remove")[k1], ("add", "remove")[k2]), group="history", timeout=900))
+    P.append(Part(H + "h_hist", {"k1": 1, "k2": 0, "twin": "readd"}, "history.twin[remove then re-add under the same formula]", kind="twin", group="history"))
     for op, name in ((0, "add_entry"), (1, "add_entries"), (2, "remove_entry")):
         for tw in ("accept", "reject"):
             P.append(Part(H + "h_step", {"op": op, "pre": [[0, 0]], "twin": tw}, "step.twin[%s,%s]" % (name, tw), kind="twin", group="step"))
